@@ -8,17 +8,24 @@ EXPLANATION = (
     "(recognised: clear(), del buf[:-k], buf = buf[-k:], del buf[:len(buf)-keep] with keep <= constant); (b) the marker-found-but-incomplete exit is "
     "guarded by len(buf) < start + P; (c) [BUF-PROGRESS] no path returns to the loop head without a statement that removes the buffer through "
     "start + P. Hence len(buf) <= K1 + 2R + P at every exit. [CSUM-DOM] in decode_usb the `checksum == stored byte` edge dominates _decode. "
-    "[SER-CONST] marker bytes and packet length agree among the client, decode_usb and encode_usb. UNDECIDED: 'at most the first following "
+    "[CSUM-COVER] the checksum function sums exactly positions 2..18 and reduces & 0xff. [SER-CONST] marker bytes and packet length agree among the client, decode_usb and encode_usb. UNDECIDED: 'at most the first following "
     "packet is lost', no loss under marker-free noise (needs stream exploration)."
 )
 ASSUMPTIONS = ["CPython ast parser", "bytearray.find returns the first occurrence or -1", "StreamReader.read(n) returns at most n bytes", "cfg.py exception-edge model"]
 
 def run(chk, program, tier):
     for r, t in (('BUF-BOUND', 'three-premise buffer bound'), ('BUF-PROGRESS', 'every non-exiting iteration consumes a packet'),
-                 ('CSUM-DOM', 'checksum comparison dominates decoding'), ('SER-CONST', 'marker / length constants agree')):
+                 ('CSUM-DOM', 'checksum comparison dominates decoding'), ('CSUM-COVER', 'checksum covers positions 2..18'), ('SER-CONST', 'marker / length constants agree')):
         chk.rule(r, t)
     r = K.buf_rules(chk, program)
     if r:
         f, P, marker = r
         K.ser_const(chk, program, P, marker)
     K.csum_dom(chk, program)
+    from .. import wire
+    cs = wire.checksum_summary(program)
+    ok = cs['lo'] == 2 and cs['hi'] == 19 and cs['mask'] == 0xff and cs['plain_sum']
+    chk.check(ok, 'CSUM-COVER', 'calculate_canbus_checksum', file='nmea2000/utils.py', line=cs['line'], func='calculate_canbus_checksum',
+              expected='sum(packet[2:19]) & 0xff: every byte between the marker and the checksum byte (positions 2..18) is covered',
+              found={'slice': [cs['lo'], cs['hi']], 'mask': cs['mask'], 'plain_sum': cs['plain_sum']},
+              detail='' if ok else 'a packet corrupted in an uncovered position still passes the comparison and is delivered')
